@@ -25,8 +25,10 @@
         * closest_nodes accumulates candidates keyed by node id (after the repair; before, a set keyed by public key)
           while walking from the longest matching prefix towards the root and stops as soon as it holds more than `k`
           nodes; then sorts by XOR distance and cuts to `k`.
-  Node status: only BAD vs not-BAD is observable in this code (`status` is also the secondary sort key in
-  closest_nodes, which never decides anything because distances of distinct ids are distinct).
+  Node status: `Node.status` is modelled from the failure count and a boolean "recent contact" (the two time tests of the
+  code, scripted by the harness); only BAD vs not-BAD is observable in the table operations (`status` is also the
+  secondary sort key in closest_nodes, which never decides anything because distances of distinct ids are distinct).
+  `Node.bucket` (a back pointer the code writes in Bucket.add but never reads) is not modelled; the harness checks it.
 -/
 import Ipv8.C14.GenConst
 
@@ -134,11 +136,22 @@ end Trie
 
 structure Node where
   id : Bits
-  bad : Bool      -- status == NODE_STATUS_BAD  (failed >= 2)
+  failed : Nat    -- Node.failed: timeouts in a row (reset by every response)
+  recent : Bool   -- responded within 15 minutes, or responded once and queried us within 15 minutes
   rtt : Nat
   addr : Nat      -- stands for Node.address (only copied on update)
   tag : Nat       -- identity of the python object
 deriving DecidableEq, Repr
+
+/-- `Node.status` (codes and threshold regenerated from the source): enough failures in a row make a node BAD whatever
+    its last contact was; otherwise recent contact makes it GOOD, else UNKNOWN -/
+def Node.status (n : Node) : Nat :=
+  if n.failed ≥ Gen.badFailedThreshold then Gen.statusBad
+  else if n.recent then Gen.statusGood
+  else Gen.statusUnknown
+
+/-- `node.status == NODE_STATUS_BAD` -/
+def Node.bad (n : Node) : Bool := n.status == Gen.statusBad
 
 structure Bucket where
   pfx : Bits
@@ -258,9 +271,9 @@ def removeBad (rt : RT) : RT × List Node :=
    rt.trie.values.flatMap (fun b => b.nodes.filter (fun x => x.bad)))
 
 /-- the environment changes the failure count / rtt of a stored node object -/
-def setNode (rt : RT) (id : Bits) (bad : Bool) (rtt : Nat) : RT :=
+def setNode (rt : RT) (id : Bits) (failed : Nat) (recent : Bool) (rtt : Nat) : RT :=
   { rt with trie := rt.trie.mapVals (fun b =>
-      { b with nodes := b.nodes.map (fun x => if x.id == id then { x with bad := bad, rtt := rtt } else x) }) }
+      { b with nodes := b.nodes.map (fun x => if x.id == id then { x with failed := failed, recent := recent, rtt := rtt } else x) }) }
 
 /-- `get` -/
 def get (rt : RT) (id : Bits) : Option Node :=
@@ -317,13 +330,13 @@ end RT
 inductive Op where
   | add (n : Node)
   | removeBad
-  | setNode (id : Bits) (bad : Bool) (rtt : Nat)
+  | setNode (id : Bits) (failed : Nat) (recent : Bool) (rtt : Nat)
 deriving Repr
 
 def step (m : Nat) (rt : RT) : Op → RT
   | .add n => (rt.add m n).1
   | .removeBad => rt.removeBad.1
-  | .setNode id bad rtt => rt.setNode id bad rtt
+  | .setNode id failed recent rtt => rt.setNode id failed recent rtt
 
 def run (m : Nat) (rt : RT) (ops : List Op) : RT := ops.foldl (step m) rt
 
